@@ -2,7 +2,8 @@
    real code on hostile inputs, every accessor callable) is the implementation-side run of the check and is labelled a test. *)
 From Coq Require Import List ZArith NArith String Lia.
 From SudachiVerif Require Import Model.Lattice Model.LatticeM Model.BuildLattice
-     Proofs.LatticeProofs Proofs.LatticeMProofs Proofs.BuildLatticeProofs Proofs.PanicSitesClassified.
+     Proofs.LatticeProofs Proofs.LatticeMProofs Proofs.BuildLatticeProofs Proofs.PanicSitesClassified Proofs.TotalitySimple.
+From SudachiVerif Require Model.Oov.
 From SudachiVerif Require Generated.Limits Generated.PanicSites Generated.ConnFacts.
 Open Scope Z_scope.
 
@@ -15,6 +16,16 @@ Theorem C03_fallback_total :
     exists L e, build conn cands fallback n = Some (L, e).
 Proof. exact fallback_total. Qed.
 Print Assumptions C03_fallback_total.
+
+(* ... and the Simple OOV provider, as modelled for C13 (Model/Oov.v: one candidate reaching to the next permissible word
+   start whenever nothing was created), is such a fallback: with it as the last provider every text of length(cs) > 0
+   characters gets a connected lattice, whatever the dictionary and the other providers offer. *)
+Theorem C03_fallback_total_simple :
+  forall (conn : N -> N -> Z) (cands : nat -> list node) (o : Model.Oov.oovdef) (cs : list N),
+    (forall p m, In m (cands p) -> node_wf (length cs) p m) ->
+    exists L e, build conn cands (simple_fallback o cs) (length cs) = Some (L, e).
+Proof. exact fallback_total_simple. Qed.
+Print Assumptions C03_fallback_total_simple.
 
 (* No overflow, no clash with the i32::MAX sentinel, no panic in the Viterbi search when costs are bounded. *)
 Theorem C03_no_overflow_if_bounded :
